@@ -60,6 +60,9 @@ CLAIMED = {
  "C18": dict(
    text="Proof: filterBlacklist returns exactly the elements not black-listed (order kept, no duplicates introduced), addWhitelist returns a duplicate-free list whose set is syscalls plus the allow-list names valid for the architecture (three loops incl. two map ranges with visited-set invariants), and in main the assertion at the point of output: names is sorted, duplicate free and its set equals (found - blacklisted) + valid allowed names, for all discovered lists and flag values; writeProfileConfig marshals Policy{errno, [{allow, names}]} (asserted on the value passed to yaml.Marshal), whose meaning is given by C01.",
    note="Trusted: contracts of getBinaryArch/hashBinary/openOutput/writeGoTemplate/writeDebugYAML (assumed, bodies not verified), sort.Strings (sorted permutation), yaml.Marshal / text/template output text (library), injectivity of the syscall tables (C12). That the YAML text reads back to the same policy is C14.", technique=TECH, ref="7 C18"),
+ "C13": dict(
+   text="Proof of three kinds of obligations over the compile, lookup and text-form functions: (1) frame: every store and append is into memory allocated by the call (ownership bit of slices, generated automatically at each store/append/copy) or into what `modifies` lists; pointer parameters not listed keep their pointee; Policy.Assemble changes nothing but p.arch (nil -> GetInfo result); (2) determinism discipline: no goroutine, channel, select, clock, random or environment access in any of these functions, and every map-range loop (invert, Action.Unpack) belongs to a function whose postconditions are proved to determine the result (uniqueness obligation: two outcomes satisfying all ensures clauses are equal); (3) the package-level data these functions read is never assigned, mutated or address-taken outside init() anywhere in the module (ground obligations). Hence equal inputs give identical results in any call history and process, and concurrent compilations of distinct policy values have disjoint write sets and read only immutable shared data.",
+   note="Race freedom is concluded from footprint disjointness by the Go memory model (data-race-free programs are sequentially consistent): a trusted principle; no schedule is executed. Concurrent compilation of the SAME policy value (write/write race on p.arch) is outside the property. Slices follow a value model with an ownership bit; aliasing through copied slice headers is refused, not modelled.", technique=TECH+"; frame/ownership obligations; uniqueness-of-postcondition obligations; ground obligations", ref="7 C13"),
 }
 NA_REASON = "check not built yet (work in progress; DESIGN.md section 7 describes the planned contracts)"
 
